@@ -33,29 +33,80 @@ def gen_state_case(rng, N):
     return {"kind": "state", "N": N, "amps": amps, "other": other, "scalar": _gi(rng, 3)}
 
 
-def gen_qudit_op(rng):
+COEFFS = [[1, 0], [1, 0], [1, 0], [-1, 0], [2, 0], [0, 1], [0, -1], [0.5, 0], [-0.5, 0], [3, 0], [1, 1]]
+NAMED = {  # structured single-qubit operators; key order matters (dict order = accumulation order in the code)
+    "X": [["gr", [1, 0]], ["rg", [1, 0]]],
+    "Xr": [["rg", [1, 0]], ["gr", [1, 0]]],
+    "Y": [["gr", [0, 1]], ["rg", [0, -1]]],
+    "Z": [["rr", [1, 0]], ["gg", [-1, 0]]],
+    "Zg": [["gg", [1, 0]], ["rr", [-1, 0]]],
+    "I": [["gg", [1, 0]], ["rr", [1, 0]]],
+    "n": [["rr", [1, 0]]],
+    "pg": [["gg", [1, 0]]],
+    "sp": [["rg", [1, 0]]],
+    "sm": [["gr", [1, 0]]],
+    "H2": [["gg", [1, 0]], ["gr", [1, 0]], ["rg", [1, 0]], ["rr", [-1, 0]]],
+}
+
+
+def gen_qudit_op(rng, structured=None):
+    """A QuditOp as an ordered list [key, coeff]: named operators (X, Y, Z, n, projectors, ...), possibly with
+    coefficients redrawn from a small set rich in exactly 1, or fully random Gaussian-integer ones."""
+    structured = rng.random() < 0.7 if structured is None else structured
+    if structured:
+        q = [[k, list(v)] for k, v in NAMED[rng.choice(sorted(NAMED))]]
+        how = rng.random()
+        if how < 0.3:      # keep the first coefficient exactly 1, redraw the others
+            q = [q[0]] + [[k, list(rng.choice(COEFFS))] for k, _ in q[1:]]
+        elif how < 0.5:    # redraw all from the small set
+            q = [[k, list(rng.choice(COEFFS))] for k, _ in q]
+        return q
     n = rng.choice([1, 1, 2, 3, 4])
     keys = rng.sample(["gg", "gr", "rg", "rr"], n)
-    return [[k, _gi(rng, 3)] for k in keys]
+    return [[k, (list(rng.choice(COEFFS)) if rng.random() < 0.5 else _gi(rng, 3))] for k in keys]
 
 
-def gen_op_case(rng, N, repeated=False):
+def gen_op_case(rng, N, repeated=False, shape=None):
+    """operations = sum of terms; every case has a small palette of QuditOps that is REUSED across terms and
+    tensor factors (the same dict contents, hence the same basis keys, appear several times in one call)."""
+    shape = shape or rng.choice(["palette", "palette", "sum_sites", "product", "random"])
+    palette = [gen_qudit_op(rng) for _ in range(rng.randint(1, 3))]
+    if shape == "random":
+        pick = lambda: gen_qudit_op(rng, structured=False)
+    else:
+        pick = lambda: [[k, list(v)] for k, v in rng.choice(palette)]
+    coef = lambda: list(rng.choice(COEFFS)) if rng.random() < 0.7 else _gi(rng, 3)
     ops = []
-    for _ in range(rng.randint(1, 4)):
-        free = list(range(N))
-        rng.shuffle(free)
-        tensor = []
-        for _ in range(rng.randint(0, min(N, 3))):
-            if not free:
-                break
-            nt = rng.randint(1, min(2, len(free)))
-            targets = [free.pop() for _ in range(nt)]
-            if repeated and tensor and rng.random() < 0.5:
-                targets.append(rng.choice(tensor[-1][1]))  # overwrite an earlier target (last assignment wins)
-            tensor.append([gen_qudit_op(rng), targets])
-        ops.append([_gi(rng, 3), tensor])
-    return {"kind": "op", "N": N, "ops": ops, "repeated": repeated, "vec": [_gi(rng, 3) for _ in range(2 ** N)],
-            "scalar": _gi(rng, 3)}
+    if shape == "sum_sites":       # c * sum_i A_i  (+ optionally a second operator on some sites)
+        A = pick()
+        for i in range(N):
+            ops.append([coef(), [[[list(x) for x in A], [i]]]])
+        if rng.random() < 0.6:
+            B = pick()
+            for i in rng.sample(range(N), rng.randint(1, N)):
+                ops.append([coef(), [[[list(x) for x in B], [i]]]])
+    elif shape == "product":       # A_0 (x) B_1 (x) ... plus a reuse of the same factors in a second term
+        sites = list(range(N))
+        rng.shuffle(sites)
+        for _ in range(rng.randint(1, 3)):
+            k = rng.randint(1, min(N, 4))
+            ops.append([coef(), [[pick(), [t]] for t in rng.sample(sites, k)]])
+    else:
+        for _ in range(rng.randint(1, 4)):
+            free = list(range(N))
+            rng.shuffle(free)
+            tensor = []
+            for _ in range(rng.randint(0, min(N, 3))):
+                if not free:
+                    break
+                nt = rng.randint(1, min(2, len(free)))
+                targets = [free.pop() for _ in range(nt)]
+                if repeated and tensor and rng.random() < 0.5:
+                    targets.append(rng.choice(tensor[-1][1]))  # overwrite an earlier target (last assignment wins)
+                tensor.append([pick(), targets])
+            ops.append([coef(), tensor])
+    return {"kind": "op", "N": N, "ops": ops, "repeated": repeated, "shape": shape,
+            "vec": [_gi(rng, 3) for _ in range(2 ** N)], "scalar": _gi(rng, 3)}
 
 
 def gen_coo_case(rng):
@@ -119,9 +170,22 @@ def impl_op(c):
         out.update({"sparse": tl(sp.data.to_dense()), "sp_apply": tl(sp.apply_to(v).data),
                     "sp_expect": complex(sp.expect(v)), "sp_add": tl((sp + sp).data.to_dense()),
                     "sp_rmul": tl((s * sp).data.to_dense())})
+    # the same and a related representation again in the same process (shared tensors / caches would show here)
+    d_again, _ = DenseOperator._from_operator_repr(eigenstates=("r", "g"), n_qudits=c["N"], operations=ops)
+    d_rev, _ = DenseOperator._from_operator_repr(eigenstates=("r", "g"), n_qudits=c["N"], operations=ops[::-1])
+    out["dense_again"] = tl(d_again.data)
+    out["dense_rev"] = tl(d_rev.data)
+    if sp is not None:
+        sp_again, _ = SparseOperator._from_operator_repr(eigenstates=("r", "g"), n_qudits=c["N"],
+                                                         operations=ops[::-1])
+        out["sparse_rev"] = tl(sp_again.data.to_dense())
     if not c["repeated"]:
         d2 = DenseOperator.from_operator_repr(eigenstates=("r", "g"), n_qudits=c["N"], operations=ops)
-        out["public_same"] = bool(torch.equal(d2.data, d.data))
+        d3 = DenseOperator.from_operator_repr(eigenstates=("r", "g"), n_qudits=c["N"], operations=ops)
+        s2 = SparseOperator.from_operator_repr(eigenstates=("r", "g"), n_qudits=c["N"], operations=ops) \
+            if sp is not None else None
+        out["public_same"] = bool(torch.equal(d2.data, d.data)) and bool(torch.equal(d3.data, d.data)) and \
+            (s2 is None or bool(torch.equal(s2.data.to_dense(), sp.data.to_dense())))
     return out
 
 
@@ -293,6 +357,10 @@ def oracle(ctx, c, r):
         fl = lambda A: [complex(x) for x in np.asarray(A).reshape(-1)]
         ok = r["dense"] == fl(M) or bad("DenseOperator differs from the Kronecker construction", "dense-repr")
         ok &= r["sparse"] == fl(M) or bad("SparseOperator differs from the Kronecker construction / dense", "sparse-repr")
+        ok &= (r["dense_again"] == fl(M) and r["dense_rev"] == fl(M)) or \
+            bad("DenseOperator built a second time / with the terms reversed differs from the Kronecker construction",
+                "dense-repr-again")
+        ok &= r.get("sparse_rev", fl(M)) == fl(M) or bad("SparseOperator with the terms reversed differs", "sparse-repr")
         ok &= (r["apply"] == fl(M @ v) and r["sp_apply"] == fl(M @ v)) or bad("apply_to wrong", "op-apply")
         e = complex(np.vdot(v, M @ v))
         ok &= (r["expect"] == e and r["sp_expect"] == e) or bad("expect wrong", "op-expect")
@@ -372,7 +440,7 @@ def run(ctx):
     for N in range(1, 9):
         for _ in range(ctx.n(3, 20) if N <= 6 else ctx.n(1, 4)):
             cases.append(gen_state_case(rng, N))
-        for i in range(ctx.n(3, 20) if N <= 5 else ctx.n(1, 3)):
+        for i in range(ctx.n(8, 30) if N <= 5 else ctx.n(2, 4)):
             cases.append(gen_op_case(rng, N, repeated=(i % 3 == 2)))
     n_model = 0
     for c in cases:
@@ -380,6 +448,10 @@ def run(ctx):
         ok = oracle(ctx, c, r)
         key = f"{c['kind']}/N={c.get('N', '-')}"
         hist[key] = hist.get(key, 0) + 1
+        if c["kind"] == "op":
+            k2 = "op-shape/" + c.get("shape", "-") + ("/first-coeff-1-multi-entry" if any(
+                len(q) > 1 and q[0][1] == [1, 0] for _, t in c["ops"] for q, _ in t) else "")
+            hist[k2] = hist.get(k2, 0) + 1
         nontrivial = c["kind"] == "coo" or (c["N"] >= 2 and (c["kind"] == "state" or any(t for _, t in c["ops"])))
         ctx.count_case({k: c[k] for k in c if k not in ("vec", "other")} | {"oracle_ok": ok}, nontrivial)
         if not model_ok:
